@@ -86,57 +86,7 @@ def run(model: Model, rep: Report, tier: str) -> None:
             rep.refuted("R2.1", construct(f, "pure"), f"may modify the caller's `{p}`: {es[0].how}", loc(f, es[0].line))
         else:
             rep.proven("R2.1", construct(f, "pure"), loc=loc(f))
-    # ---------------------------------------------------------------- R2.2
-    f = model.func(f"{ID}.api.identify_outcomes")
-    from .idcommon import ID_PRIMS, ID_PRIM_METHODS, IDENTIFY, QUERY
-    IDC = f"{ID}.id_c.idc"
-    ev2 = Evaluator(model, primitives=set(ID_PRIMS) | {IDENTIFY, IDC, IDENT, QUERY}, prim_methods=set(ID_PRIM_METHODS))
-    cond_t = typed(ev2, "conditions", ("union", (("set", ("cls", VARIABLE)), "none")))
-    paths2 = ev2.run(f, {"graph": graph_var(ev2, "graph"), "treatments": varset(ev2, "treatments"), "outcomes": varset(ev2, "outcomes"), "conditions": cond_t})
-    sa2 = SetAlg()
-    problems = []
-    caught = [p for p in paths2 if any(c[0] == "raised-in" for c in p.conds)]
-    names = set()
-    for p in caught:
-        for c in p.conds:
-            if c[0] == "raised-in":
-                for h in c[1]:
-                    r = model.resolve_name(f.module, h) if isinstance(h, str) and h.isidentifier() else None
-                    from ..model import Cls
-                    names.add(r.name if isinstance(r, Cls) else str(h))
-        if not (p.kind == "return" and p.value == ("const", None)):
-            problems.append("a caught refusal is not translated into None")
-    if not caught:
-        problems.append("the refusal (Unidentifiable) of identify/idc is not caught: it leaks to the caller instead of returning None")
-    elif names != {"Unidentifiable"}:
-        problems.append(f"the handler catches {sorted(names)}, not exactly Unidentifiable (broader handlers hide crashes, narrower ones leak the refusal)")
-    isnone = sa2.cond(("isnone", cond_t))
-    empty = f_not(sa2.cond(("truth", cond_t)))
-    def callee(p, q):
-        return p.kind == "return" and p.value[0] == "call" and p.value[1] == q
-    pid_ = [p for p in paths2 if callee(p, IDENTIFY)]
-    pidc = [p for p in paths2 if callee(p, IDC)]
-    others = [p for p in paths2 if p not in caught and p not in pid_ and p not in pidc]
-    if len(pid_) != 1 or len(pidc) != 1 or others:
-        problems.append("the wrapper does not return exactly identify(...) or idc(...) of the query")
-    else:
-        g1 = f_and(*[sa2.cond(c) for c in pid_[0].conds])
-        if not (compare(g1, isnone)[0] or compare(g1, f_or(isnone, empty))[0] or compare(g1, empty)[0]):
-            problems.append("routing: ID is not used exactly when no conditions are given (and IDC otherwise)")
-        for p in (pid_[0], pidc[0]):
-            ident = dict(p.value[3]).get("identification") or (p.value[2][0] if p.value[2] else None)
-            ok_arg = ident is not None and ident[0] in ("new", "rec") and str(ident[1]).endswith("Identification")
-            if ok_arg:
-                kw = dict(ident[3]) if ident[0] == "new" else dict(ident[2])
-                qy = kw.get("query")
-                qkw = (dict(qy[3]) if qy[0] == "new" else dict(qy[2])) if qy is not None and qy[0] in ("new", "rec") else {}
-                def _unset(t):
-                    return dict(t[3]).get("vertices", t[2][0] if t[2] else t) if t is not None and t[0] == "call" and str(t[1]).endswith("_ensure_set") else t
-                ok_arg = kw.get("graph") == ("var", "graph") and _unset(qkw.get("outcomes")) == ("var", "outcomes") and _unset(qkw.get("treatments")) == ("var", "treatments") \
-                    and qkw.get("conditions") == cond_t
-            if not ok_arg:
-                problems.append("the query handed to the algorithm is not (graph, treatments, outcomes, conditions) of the call")
-    (rep.refuted if problems else rep.proven)("R2.2", construct(f, "verdict-translation"), "; ".join(sorted(set(problems))), loc(f), sample={"paths": len(paths2)})
+    r2_2(model, rep)
     # ---------------------------------------------------------------- R2.3 / R2.4 on identify's paths
     fi, ev, ident, paths, impl, results, sa, ref = c01.match_lines(model, rep)
     unid = [it for it in impl if it["kind"] == "raise" and it["value"] == "Unidentifiable"]
@@ -259,3 +209,58 @@ def _district_refinement(conds, sa: SetAlg) -> bool:
             if fa[2] == DG and len(fa[3]) == 1 and fa[3][0] == ("psubset", S, fa[1]):
                 return True
     return False
+
+
+def r2_2(model: Model, rep: Report) -> None:
+    # ---------------------------------------------------------------- R2.2
+    f = model.func(f"{ID}.api.identify_outcomes")
+    from .idcommon import ID_PRIMS, ID_PRIM_METHODS, IDENTIFY, QUERY
+    IDC = f"{ID}.id_c.idc"
+    ev2 = Evaluator(model, primitives=set(ID_PRIMS) | {IDENTIFY, IDC, IDENT, QUERY}, prim_methods=set(ID_PRIM_METHODS))
+    cond_t = typed(ev2, "conditions", ("union", (("set", ("cls", VARIABLE)), "none")))
+    paths2 = ev2.run(f, {"graph": graph_var(ev2, "graph"), "treatments": varset(ev2, "treatments"), "outcomes": varset(ev2, "outcomes"), "conditions": cond_t})
+    sa2 = SetAlg()
+    problems = []
+    caught = [p for p in paths2 if any(c[0] == "raised-in" for c in p.conds)]
+    names = set()
+    for p in caught:
+        for c in p.conds:
+            if c[0] == "raised-in":
+                for h in c[1]:
+                    r = model.resolve_name(f.module, h) if isinstance(h, str) and h.isidentifier() else None
+                    from ..model import Cls
+                    names.add(r.name if isinstance(r, Cls) else str(h))
+        if not (p.kind == "return" and p.value == ("const", None)):
+            problems.append("a caught refusal is not translated into None")
+    if not caught:
+        problems.append("the refusal (Unidentifiable) of identify/idc is not caught: it leaks to the caller instead of returning None")
+    elif names != {"Unidentifiable"}:
+        problems.append(f"the handler catches {sorted(names)}, not exactly Unidentifiable (broader handlers hide crashes, narrower ones leak the refusal)")
+    isnone = sa2.cond(("isnone", cond_t))
+    empty = f_not(sa2.cond(("truth", cond_t)))
+    def callee(p, q):
+        return p.kind == "return" and p.value[0] == "call" and p.value[1] == q
+    pid_ = [p for p in paths2 if callee(p, IDENTIFY)]
+    pidc = [p for p in paths2 if callee(p, IDC)]
+    others = [p for p in paths2 if p not in caught and p not in pid_ and p not in pidc]
+    if len(pid_) != 1 or len(pidc) != 1 or others:
+        problems.append("the wrapper does not return exactly identify(...) or idc(...) of the query")
+    else:
+        g1 = f_and(*[sa2.cond(c) for c in pid_[0].conds])
+        if not (compare(g1, isnone)[0] or compare(g1, f_or(isnone, empty))[0] or compare(g1, empty)[0]):
+            problems.append("routing: ID is not used exactly when no conditions are given (and IDC otherwise)")
+        for p in (pid_[0], pidc[0]):
+            ident = dict(p.value[3]).get("identification") or (p.value[2][0] if p.value[2] else None)
+            ok_arg = ident is not None and ident[0] in ("new", "rec") and str(ident[1]).endswith("Identification")
+            if ok_arg:
+                kw = dict(ident[3]) if ident[0] == "new" else dict(ident[2])
+                qy = kw.get("query")
+                qkw = (dict(qy[3]) if qy[0] == "new" else dict(qy[2])) if qy is not None and qy[0] in ("new", "rec") else {}
+                def _unset(t):
+                    return dict(t[3]).get("vertices", t[2][0] if t[2] else t) if t is not None and t[0] == "call" and str(t[1]).endswith("_ensure_set") else t
+                ok_arg = kw.get("graph") == ("var", "graph") and _unset(qkw.get("outcomes")) == ("var", "outcomes") and _unset(qkw.get("treatments")) == ("var", "treatments") \
+                    and qkw.get("conditions") == cond_t
+            if not ok_arg:
+                problems.append("the query handed to the algorithm is not (graph, treatments, outcomes, conditions) of the call")
+    (rep.refuted if problems else rep.proven)("R2.2", construct(f, "verdict-translation"), "; ".join(sorted(set(problems))), loc(f), sample={"paths": len(paths2)})
+
